@@ -49,8 +49,12 @@ func errorPaylad(err error) []byte {
 	return buf.Bytes()
 }
 
-// SendError send a error message in response to msg.
+// SendError send a error message in response to msg. A post is
+// never answered.
 func (c *channel) SendError(msg *net.Message, err error) error {
+	if msg.Header.Type == net.Post {
+		return nil
+	}
 	hdr := net.NewHeader(net.Error, msg.Header.Service, msg.Header.Object,
 		msg.Header.Action, msg.Header.ID)
 	mError := net.NewMessage(hdr, errorPaylad(err))
@@ -109,6 +113,9 @@ func (c *tracedChannel) Send(msg *net.Message) error {
 }
 
 func (c *tracedChannel) SendError(msg *net.Message, err error) error {
+	if msg.Header.Type == net.Post {
+		return nil
+	}
 	hdr := net.NewHeader(net.Error, msg.Header.Service, msg.Header.Object,
 		msg.Header.Action, msg.Header.ID)
 	mError := net.NewMessage(hdr, errorPaylad(err))
@@ -135,6 +142,9 @@ func (c *statChannel) Send(msg *net.Message) error {
 }
 
 func (c *statChannel) SendError(msg *net.Message, err error) error {
+	if msg.Header.Type == net.Post {
+		return nil
+	}
 	hdr := net.NewHeader(net.Error, msg.Header.Service, msg.Header.Object,
 		msg.Header.Action, msg.Header.ID)
 	mError := net.NewMessage(hdr, errorPaylad(err))
